@@ -44,6 +44,8 @@ Step ==
     [] E[1] = "ret" /\ E[2] = "stop" -> bad' = Threads \cup Chk(NF = 0 /\ NL = 0 /\ E[3] = "F", "StopLeft") /\ UNCHANGED fvars
     [] E[1] = "clear" -> Clear /\ bad' = Threads
     [] E[1] = "alive" -> bad' = Threads \cup Chk((E[2] = "T") = (NF = 1 /\ NL = 1), "IsAlive") /\ UNCHANGED fvars
+    (* C30: ActiveFabric(), the fabric run event, the writer, Signal() and ReturnStatus() still yield the objects they yielded at first *)
+    [] E[1] = "single" -> bad' = Threads \cup Chk(E[2] = "", "NotSingle") /\ UNCHANGED fvars
     [] OTHER -> bad' = Threads /\ UNCHANGED fvars
 
 Final ==
